@@ -1,5 +1,5 @@
 """C16 - threaded logging: every queued message once, in order, before fini."""
-from engine.qb import (AnalysisBroken, estr, unwrap, cval, walk, last_field, fields_of, callee_of, mentions_var,
+from engine.qb import (AnalysisBroken, abstract_run, estr, unwrap, cval, walk, last_field, fields_of, callee_of, mentions_var,
                        atoms_of, root_var, lockset)
 from rules.common import some_source, field_is, has_call, derives
 
@@ -22,8 +22,9 @@ RULES = {
     'R11': 'what is queued is written before the routing changes: the functions control operations bracket their work with (pause, quiesce) write out every queued record after taking the thread\'s lock, and every change of what the logging thread does with a queued record - a store of a new value to a target\'s threaded switch, a change of the filters or tags of existing call sites (through helpers: judged at the callers), the custom filter function run over them - happens inside such a bracket (or in qb_log_fini after the thread was stopped)',
     'R12': 'a logger that logs cannot dead-lock the writer: qb_log_thread_log_post takes the queue lock only after a test that the calling thread is not the one that is handing records to the targets (pthread_equal with the recorded writer), and every write of a queued record is made with the writer recorded',
     'R13': 'the number dropped is reported by whoever takes records off the queue: in every function that unlinks queued records (the logging thread, and the helper control operations, pause and stop write the backlog with) no path from an unlink to the release of the queue lock or to the return misses the report - the drop counter read, zeroed and its value handed to a printing call',
+    'R14': 'a bracket closes what it opened: qb_log_thread_pause(t) and qb_log_thread_resume(t) each decide from the target\'s threaded switch whether there is a lock to take / release, so nothing between them - in the bracketing function or in anything it calls there - stores to that switch (evaluated for every request value of qb_log_ctl2); otherwise the resume of a target that was threaded at the pause releases nothing and the queue lock stays held: the next log call, control operation or qb_log_fini hangs',
 }
-FLOORS = {'R13': 3, 'R1': 11, 'R2': 5, 'R3': 4, 'R4': 5, 'R5': 5, 'R6': 3, 'R7': 3, 'R8': 2, 'R9': 3, 'R10': 2, 'R11': 5, 'R12': 2}
+FLOORS = {'R14': 3, 'R13': 3, 'R1': 11, 'R2': 5, 'R3': 4, 'R4': 5, 'R5': 5, 'R6': 3, 'R7': 3, 'R8': 2, 'R9': 3, 'R10': 2, 'R11': 5, 'R12': 2}
 
 LOCK = 'logt_wthread_lock'
 GUARDED = ('logt_print_finished_records', 'logt_memory_used', 'logt_dropped_messages')
@@ -116,6 +117,7 @@ def run(ctx):
     r11(ctx)
     r12(ctx, fns)
     r13(ctx, fns)
+    r14(ctx)
     r5(ctx)
     r6(ctx, fns)
     r7(ctx, fns)
@@ -715,3 +717,50 @@ def r13(ctx, fns):
     ctx.check('R13', 'report-says-the-number', bool(said), said[0] if said else list(reporters.values())[0][0],
               'the function that zeroes the drop counter hands its value to a call (the line that says how many were lost)',
               'the drop counter is zeroed but its value reaches no call: the number dropped is forgotten, not reported')
+
+
+def r14(ctx):
+    prog = ctx.prog
+    fns = {f.name: f for f in prog.all_fns() if f.file.startswith('lib/log')}
+    SW = ('qb_log_target', 'threaded')
+
+    def sets_switch(ev):
+        return ev.kind == 'STORE' and last_field(ev.lhs) == SW
+    S = {n for n, f in fns.items() if any(sets_switch(ev) for ev in f.events('STORE'))}
+    grew = True
+    while grew:
+        grew = False
+        for n, f in fns.items():
+            if n not in S and any(ev.callee in S for ev in f.events('CALL')):
+                S.add(n)
+                grew = True
+    brackets = [f for f in fns.values() if list(f.calls('qb_log_thread_pause')) and list(f.calls('qb_log_thread_resume'))]
+    if len(brackets) < 3:
+        raise AnalysisBroken('R14: %d functions bracket their work with pause/resume' % len(brackets))
+    for f in sorted(brackets, key=lambda g: g.name):
+        envs = [({}, '')]
+        sw = [b for b in f.blocks.values() if b.cond is not None and any(isinstance(l, tuple) and l[0] == 'case' for (_t, l) in b.succs)]
+        pnames = {pp['n'] for pp in f.params}
+        svars = {estr(unwrap(b.cond)) for b in sw if estr(unwrap(b.cond)) in pnames}
+        if len(svars) == 1:
+            v = sorted(svars)[0]
+            vals = sorted({l[1] for b in sw for (_t, l) in b.succs if isinstance(l, tuple) and l[0] == 'case' and estr(unwrap(b.cond)) == v})
+            envs = [({v: x}, ' (%s == %s)' % (v, x)) for x in vals]
+        bad = None
+        for env0, label in envs:
+            def eff(ev, env):
+                if ev.kind == 'CALL' and ev.callee == 'qb_log_thread_pause':
+                    return {'#p': 1}
+                if ev.kind == 'CALL' and ev.callee == 'qb_log_thread_resume':
+                    return {'#p': 0}
+                return None
+            env = dict(env0)
+            env['#p'] = 0
+            visits, _t = abstract_run(f, env, tracked=set(env0) | {'#p'}, effect=eff)
+            for (ev, e) in visits:
+                if e.get('#p') == 1 and (sets_switch(ev) or (ev.kind == 'CALL' and ev.callee in S)):
+                    bad = bad or (ev, label)
+        ctx.check('R14', '%s:switch-untouched-inside-bracket' % f.name, bad is None, bad[0] if bad else f,
+                  'nothing between pause and resume in %s changes the threaded switch they both test' % f.name,
+                  '%s%s: between qb_log_thread_pause and qb_log_thread_resume %s changes the target\'s threaded switch: the resume no longer sees a threaded target, releases nothing, and the queue lock stays held'
+                  % (f.name, bad[1] if bad else '', ('the call of ' + bad[0].callee) if bad and bad[0].kind == 'CALL' else 'a store'))
